@@ -6,6 +6,7 @@ from hypothesis import strategies as st
 
 from ..core import EnumPart, Fail, HypPart, Out, Prop, exc_sig
 from ..gen import corpus
+from ..gen.tape import Tape, tapes
 from ..oracle import emphasis
 
 
@@ -78,18 +79,21 @@ _SPACES = '   　  \t'
 
 class RandomStrings(HypPart):
     name = 'random-wide-alphabet'
-    budget = {'quick': 48000, 'thorough': 1600000}
+    budget = {'quick': 16000, 'thorough': 800000}
     rule = ('Hypothesis strings of 1..40 symbols over letters/digits, ASCII+Unicode punctuation, Unicode Zs spaces, '
             'tab and runs of * and _ (characters with another inline meaning excluded); same non-triviality rule')
 
+    _SYMS = (['*', '**', '***', '_', '__', '___', '*', '_', '****', '_____'] * 2
+             + list(_LETTERS) + list(_PUNCT) + list(_SPACES) + ['a', ' ', ' ', 'b'])
+
     def strategy(self, tier):
-        sym = st.one_of(
-            st.sampled_from(['*', '**', '***', '_', '__', '___', '*', '_']),
-            st.sampled_from(list(_LETTERS)),
-            st.sampled_from(list(_PUNCT)),
-            st.sampled_from(list(_SPACES)),
-        )
-        return st.lists(sym, min_size=1, max_size=40).map(lambda xs: {'text': ''.join(xs)})
+        return tapes(40, 400)
+
+    def expand(self, drawn):
+        t = Tape(drawn)
+        while not t.exhausted():
+            n = t.between(1, 40)
+            yield {'text': ''.join(t.choice(self._SYMS) for _ in range(n))}
 
     def check(self, case):
         t = case['text']
